@@ -413,6 +413,41 @@ claim("C11",
       PURE_TECH, "DESIGN.md §6 C11")
 
 
+# ---- from notes/C07_claim.py
+# claim entry for harness/manifest_gen.py (paste after the C06 claim; ENGINE_NOTE / ENGINE_TECH are defined there)
+claim("C07",
+      "Coq proof (16 theorems, no axioms) about CrashModel.v, the commit discipline as a machine of individual writes (durable: storage rows "
+      "with both sides' oid/path/hash/sync_path/sync_hash/exists/changed, stored cursors; volatile: in-memory entries, dirty marks, cursor "
+      "position; two providers with the whole history of every object; engine steps decomposed, in the order of the code, into provider "
+      "write / memory update / row commit / cursor store, each with its guard; crash = volatile part dropped, memory reloaded from the rows). "
+      "(a) for EVERY sequence of guarded micro operations, user operations and crashes, hence at every write boundary: every stored sync mark "
+      "is reflected by its own object and by the peer unless a user changed the object since, and every object whose events the stored cursor "
+      "covers is accounted for by a stored row (C07_durable_never_ahead, by induction over the sequence); the model's plans never issue an "
+      "operation whose guard fails and have the write order provider writes -> row commits / row commits -> cursor last. (b) from every state "
+      "of every plan-driven run — all step sequences, all crash points ECrash m k — in which no user acts between a crash and the next quiet "
+      "state, the recovery (restart, intake from the stored cursors, sync with adoption of an equal-content peer at the translated path) ends "
+      "settled with equal views, no '.conflicted' name, one peer per object, origins untouched (C07_half_recorded_recoverable_partial); full "
+      "strength (users acting during the recovery) and the recovery without the adoption rule are refuted with witnesses. (c) rows that fail to "
+      "load are exactly the dropped ones, loading is total. Outcome: a crash is invisible in the observation trace, Monitor acceptance gives "
+      "convergence to the spec tree, covered versions live, no '.conflicted', origin untouched. Tie on every run: each base run of a seeded "
+      "clean-domain family (one-sided / disjoint, SqliteStorage on a file) is re-run once per storage write (death before it) and per "
+      "engine-issued provider write (death after it); oracles: Monitor + C11 index + C08 storage==memory during recovery; the extracted "
+      "na_row/na_obj (the functions of theorem (a)) on the decoded rows at every write boundary and, on the re-opened file, at the crash "
+      "instant; the extracted shape_ok on the write order of every engine step; the model's recovery of the abstracted crash state vs the real "
+      "recovery (provider writes per object, final views); an undecodable row injected at crash instants must be dropped by the restart.",
+      ENGINE_NOTE + " C07 additionally trusts the abstraction of real rows/providers to the model's vocabulary (msgpack decoding, oid lookup, "
+      "interning, object histories recorded by scanning the mock file system, a folder event counted as an event of its descendants, slots "
+      "assembled from which side's user made an object). Not modelled: torn writes inside SQLite, process death inside a provider call, path "
+      "collisions and parent-first ordering, users acting between the process death and the end of the recovery (refuted for the model; "
+      "witnesses W1/W2 replayed with pinned outcome). The seeded domain is tightened by two classes found by this check and listed as known "
+      "findings with deterministic witnesses: F-C07-1 (crash between the row commits after a folder rename, then an operation on a child; "
+      "resumed runs exclude folder renames) and F-C07-2 (peer created at a path the origin has already left; a drain precedes the rename or "
+      "delete of an object made since the last quiet point).",
+      "machine-checked proof (Coq) of an executable model of the commit discipline (invariant over all write sequences and crash points) and of a "
+      "trace acceptor + exhaustive crash-point enumeration of real engine runs judged by the extracted predicates",
+      "DESIGN.md §3.2, §6 C07")
+
+
 ALL = ["C%02d" % i for i in range(1, 21)]
 
 
